@@ -1438,7 +1438,7 @@ Proof.
         apply (A j); [lia|exact Nj].
       * right. exists i2, b2, sl2, lv2, t2. repeat split; auto; try lia.
         intros j bj Hj Nj. destruct (Nat.eq_dec j p) as [->|NE]; [congruence|]. apply (Low j); [lia|exact Nj].
-    + right. exists p, b, sl, lv, t0. repeat split; auto; try lia. intros j bj Hj. lia.
+    + right. exists p, b, sl, lv, t0. repeat split; auto; try lia.
 Qed.
 
 Lemma nfs_new : forall sys md, check_rungs sys = true ->
@@ -1542,7 +1542,8 @@ Proof.
       - eapply Bc; [|exact Nj]. lia. }
     destruct (is_bracket_complete bp) eqn:Cp.
     + assert (p' = length bs - 1)%nat by (eapply Cl; eauto).
-      destruct (create_ok rss md bs' offs p' Offs') as [CE CO]. rewrite CE. rewrite Lbs' in *.
+      destruct (create_ok rss md bs' offs p' Offs') as [CE CO].
+      unfold set_primary, set_brackets. cbn [m_rs m_mode m_brackets m_offsets m_primary]. rewrite CE. rewrite Lbs' in *.
       assert (Core2 := core_new_bracket _ _ _ _ _ OK Core). fold bs' in Core2. rewrite Lbs' in Core2.
       eexists. split; [reflexivity|]. cbn [set_primary m_rs m_mode m_brackets m_offsets m_primary]. split; [|split].
       * apply mkInv'.
@@ -1555,17 +1556,307 @@ Proof.
         -- exact Core2.
       * rewrite nth_error_app1 by lia. exact Nb'.
       * right. reflexivity.
-    + eexists. split; [reflexivity|]. cbn [set_primary m_rs m_mode m_brackets m_offsets m_primary]. split; [|split].
-      * apply mkInv'; auto; try lia. intros bj Hn. congruence.
+    + eexists. split; [reflexivity|]. unfold set_primary, set_brackets. cbn [m_rs m_mode m_brackets m_offsets m_primary]. split; [|split].
+      * apply mkInv'; [exact Offs'|unfold bs' in *; rewrite ?upd_length in *; lia|exact Below|intros bj Hn; congruence|exact Core].
       * exact Nb'.
       * left. reflexivity.
   - apply Nat.eqb_neq in Ep. eexists. split; [reflexivity|].
-    cbn [set_brackets m_rs m_mode m_brackets m_offsets m_primary]. split; [|split].
-    + apply mkInv'; auto; try lia.
+    unfold set_primary, set_brackets. cbn [m_rs m_mode m_brackets m_offsets m_primary]. split; [|split].
+    + apply mkInv'; [exact Offs'|unfold bs' in *; rewrite ?upd_length in *; lia| | |exact Core].
       * intros j bj Hn Hj. eapply I5; [|exact Hj]. apply CompOther; [lia|exact Hn].
       * intros bj Hn. apply I6. apply CompOther; [lia|exact Hn].
     + exact Nb'.
     + left. reflexivity.
+Qed.
+
+(* ---- a request for work --------------------------------------------------- *)
+Lemma suggest_inv : forall rss md st cfg_ok, rss_ok rss -> Inv rss md st ->
+  (cfg_ok = false -> strict = false) ->
+  exists st' sg bid s m',
+    suggest st cfg_ok = Ok (st', sg) /\ Inv rss md st' /\
+    next_job (s_mgr st) = Ok (m', (bid, s)) /\
+    (m_primary (s_mgr st) <= bid)%nat /\
+    (* an open bracket with a free slot is served, the one with the lowest id; a new bracket
+       is opened exactly when no open bracket has a free slot *)
+    ((length (m_brackets m') = length (m_brackets (s_mgr st)) /\ (bid < length (m_brackets (s_mgr st)))%nat /\
+      (exists b, nth_error (m_brackets (s_mgr st)) bid = Some b /\ has_free_slot b = true) /\
+      (forall j bj, (m_primary (s_mgr st) <= j < bid)%nat -> nth_error (m_brackets (s_mgr st)) j = Some bj ->
+                    has_free_slot bj = false))
+     \/ (length (m_brackets m') = S (length (m_brackets (s_mgr st))) /\ bid = length (m_brackets (s_mgr st)) /\
+         forall j b, (m_primary (s_mgr st) <= j)%nat -> nth_error (m_brackets (s_mgr st)) j = Some b ->
+                     has_free_slot b = false)) /\
+    (* the job is a slot of the rung the bracket is filling; all lower rungs are fully occupied *)
+    (exists b', nth_error (m_brackets m') bid = Some b' /\ rung_index s = current_rung b' /\
+                is_bracket_complete b' = false /\
+                forall k, (k < rung_index s)%nat ->
+                  exists sl lv, nth_error (rungs b') k = Some (Filled sl lv) /\ full_rung sl) /\
+    (* no config from the searcher: no suggestion, nothing becomes pending, the slot holds NaN *)
+    (cfg_ok = false -> trial_id s = None ->
+       sg = SNone /\ s_pending st' = s_pending st /\ s_ntrials st' = s_ntrials st /\
+       exists b2 sl2 lv2, nth_error (m_brackets (s_mgr st')) bid = Some b2 /\
+         nth_error (rungs b2) (rung_index s) = Some (Filled sl2 lv2) /\
+         nth_error sl2 (slot_index s) = Some (None, Some NaN)) /\
+    (sg = SNone -> cfg_ok = false).
+Proof.
+  intros rss md [[rs md0 bs offs p] P rem n] cfg_ok OK I NS.
+  destruct I as [I1 I2 I3 I4 I5 I6 I7]. cbn [s_mgr s_pending s_ntrials s_removable m_rs m_mode m_brackets m_offsets m_primary] in *.
+  subst rs md0. assert (OK' := OK). destruct OK' as [NE CKs].
+  (* what next_job does: the state [bs1, offs1] (maybe with a new bracket) and the bracket [i] that is bumped *)
+  assert (NJ : exists bs1 offs1 i b sl lv t0,
+     InvCore rss md bs1 P n /\ nth_error bs1 i = Some b /\ current_rung_and_level b = Ok (sl, lv) /\
+     nth_error sl (first_free_pos b) = Some (t0, None) /\ (p <= i)%nat /\
+     offs1 = map (fun j => (j mod length rss)%nat) (seq 0 (length bs1)) /\
+     (length bs <= length bs1)%nat /\
+     (forall j bj, nth_error bs j = Some bj -> nth_error bs1 j = Some bj) /\
+     (forall bj, nth_error bs1 p = Some bj -> is_bracket_complete bj = false) /\
+     (forall j bj, nth_error bs1 j = Some bj -> (j < p)%nat -> is_bracket_complete bj = true) /\
+     next_job (mkM rss md bs offs p) =
+       Ok (mkM rss md (upd bs1 i (bump b)) offs1 p, (i, mkSIR (current_rung b) lv (first_free_pos b) t0 None)) /\
+     ((length bs1 = length bs /\ (i < length bs)%nat /\
+       (exists b0, nth_error bs i = Some b0 /\ has_free_slot b0 = true) /\
+       (forall j bj, (p <= j < i)%nat -> nth_error bs j = Some bj -> has_free_slot bj = false))
+      \/ (length bs1 = S (length bs) /\ i = length bs /\
+          forall j bj, (p <= j)%nat -> nth_error bs j = Some bj -> has_free_slot bj = false))).
+  { unfold next_job. cbn [m_rs m_mode m_brackets m_offsets m_primary].
+    destruct (try_spec_seq md bs (length bs - p) p) as [[E NoFree]|[i [b [sl [lv [t0 [Ii [Nb [C [Ns [HF [Low E]]]]]]]]]]]].
+    { intros i Hi. destruct (nth_error bs i) as [b|] eqn:Nb.
+      - exists b, (nth (i mod length rss) rss []). split; [reflexivity|]. eapply ic_b; eauto.
+      - apply nth_error_None in Nb. lia. }
+    - rewrite E. destruct (create_ok rss md bs offs p I3) as [CE CO]. rewrite CE.
+      cbn [m_rs m_mode m_brackets m_offsets m_primary].
+      set (sys := nth (length bs mod length rss) rss []) in *.
+      assert (CK : check_rungs sys = true) by (apply CKs, mod_lt_len, NE).
+      set (nb := new_bracket sys md) in *.
+      assert (Nnb : nth_error (bs ++ [nb]) (length bs) = Some nb).
+      { rewrite nth_error_app2 by lia. rewrite Nat.sub_diag. reflexivity. }
+      rewrite Nnb.
+      destruct (nfs_new sys md CK) as [sl [lv [C [Ns [NC Enfs]]]]]. fold nb in C, Ns, NC, Enfs. rewrite Enfs.
+      assert (Core1 := core_new_bracket _ _ _ _ _ OK I7). fold sys nb in Core1.
+      exists (bs ++ [nb]), (offs ++ [(length bs mod length rss)%nat]), (length bs), nb, sl, lv, None.
+      split; [exact Core1|]. split; [exact Nnb|]. split; [exact C|]. split; [exact Ns|]. split; [lia|].
+      split; [exact CO|]. split; [rewrite app_length; simpl; lia|].
+      split; [intros j bj Hj; rewrite nth_error_app1; [exact Hj|eapply nth_error_lt; eauto]|].
+      split; [intros bj Hj; rewrite nth_error_app1 in Hj by lia; eauto|].
+      split; [intros j bj Hj Hp; rewrite nth_error_app1 in Hj by lia; eauto|].
+      split; [reflexivity|]. right. rewrite app_length. simpl. split; [lia|]. split; [reflexivity|].
+      intros j bj Hj Nj. eapply NoFree; eauto. apply nth_error_lt in Nj. lia.
+    - rewrite E. exists bs, offs, i, b, sl, lv, t0.
+      split; [exact I7|]. split; [exact Nb|]. split; [exact C|]. split; [exact Ns|]. split; [lia|].
+      split; [exact I3|]. split; [lia|]. split; [auto|]. split; [exact I6|]. split; [exact I5|].
+      split; [reflexivity|]. left. split; [reflexivity|]. split; [apply nth_error_lt in Nb; exact Nb|].
+      split; [eauto|]. exact Low. }
+  destruct NJ as [bs1 [offs1 [i [b [sl [lv [t0 [Core1 [Nb [C [Ns [Pi [Offs1 [Lbs1 [Ext [PC1 [LT1 [NJ Cases]]]]]]]]]]]]]]]]]].
+  assert (Li : (i < length bs1)%nat) by (eapply nth_error_lt; eauto).
+  destruct (crl_inv _ _ _ C) as [_ NC].
+  assert (Bb := ic_b _ _ _ _ _ Core1 _ _ Nb).
+  set (bs2 := upd bs1 i (bump b)) in *.
+  assert (Lbs2 : length bs2 = length bs1) by apply upd_length.
+  assert (Ni2 : nth_error bs2 i = Some (bump b)) by (apply nth_error_upd_eq; exact Li).
+  assert (PC2 : forall bj, nth_error bs2 p = Some bj -> is_bracket_complete bj = false).
+  { intros bj H. apply nth_error_upd in H. destruct H as [[<- ->]|[_ H]]; [exact NC|eauto]. }
+  assert (LT2 : forall j bj, nth_error bs2 j = Some bj -> (j < p)%nat -> is_bracket_complete bj = true).
+  { intros j bj H Hj. apply nth_error_upd in H. destruct H as [[<- ->]|[_ H]]; [lia|eauto]. }
+  assert (Offs2 : offs1 = map (fun j => (j mod length rss)%nat) (seq 0 (length bs2))) by (rewrite Lbs2; exact Offs1).
+  assert (Fin : exists b', nth_error bs2 i = Some b' /\ current_rung b = current_rung b' /\
+                  is_bracket_complete b' = false /\
+                  forall k, (k < current_rung b)%nat -> exists sl0 lv0, nth_error (rungs b') k = Some (Filled sl0 lv0) /\ full_rung sl0).
+  { exists (bump b). split; [exact Ni2|]. split; [reflexivity|]. split; [exact NC|].
+    intros k Hk. exact (bi_done _ _ _ Bb k Hk). }
+  assert (CasesOut :
+    (length bs2 = length bs /\ (i < length bs)%nat /\
+      (exists b0, nth_error bs i = Some b0 /\ has_free_slot b0 = true) /\
+      (forall j bj, (p <= j < i)%nat -> nth_error bs j = Some bj -> has_free_slot bj = false))
+     \/ (length bs2 = S (length bs) /\ i = length bs /\
+         forall j bj, (p <= j)%nat -> nth_error bs j = Some bj -> has_free_slot bj = false)).
+  { rewrite Lbs2. exact Cases. }
+  unfold suggest. cbn [s_mgr s_pending s_ntrials s_removable]. rewrite NJ.
+  cbn [trial_id rung_index level slot_index metric_val].
+  assert (PrimInv : forall P' n', InvCore rss md bs2 P' n' ->
+            Inv rss md (mkS (mkM rss md bs2 offs1 p) P' rem n')).
+  { intros P' n' Core. apply mkInv'; auto. lia. }
+  destruct t0 as [t|].
+  - (* a promoted trial is resumed *)
+    assert (LK : lookup t P = None).
+    { apply lookup_not_in. eapply resume_not_pending; eauto. }
+    rewrite LK. cbn [is_none].
+    assert (Core2 := core_hand_out _ _ _ _ _ n _ _ _ _ _ _ t Core1 Nb C Ns (or_intror (conj eq_refl eq_refl))).
+    eexists _, _, _, _, _. split; [reflexivity|]. split; [apply PrimInv; exact Core2|].
+    split; [reflexivity|]. split; [exact Pi|]. split; [exact CasesOut|]. split; [exact Fin|].
+    split; [intros _ X; discriminate|intro X; discriminate].
+  - destruct cfg_ok.
+    + (* a new trial is started *)
+      assert (LK : lookup n P = None).
+      { apply lookup_not_in. intro H. apply in_map_iff in H. destruct H as [[k j] [Ek H]]. simpl in Ek. subst k.
+        apply (ic_klt _ _ _ _ _ I7) in H. lia. }
+      rewrite LK. cbn [is_none].
+      assert (Core2 := core_hand_out _ _ _ _ _ (n + 1)%Z _ _ _ _ _ _ n Core1 Nb C Ns
+                         (or_introl (conj eq_refl (conj eq_refl eq_refl)))).
+      eexists _, _, _, _, _. split; [reflexivity|]. split; [apply PrimInv; exact Core2|].
+      split; [reflexivity|]. split; [exact Pi|]. split; [exact CasesOut|]. split; [exact Fin|].
+      split; [intros X; discriminate|intro X; discriminate].
+    + (* the searcher has no config: the slot is reported as failed *)
+      unfold report_as_failed, shell_on_result. cbn [s_mgr s_pending s_ntrials s_removable rung_index level slot_index trial_id].
+      set (r := mkSIR (current_rung b) lv (first_free_pos b) None (Some NaN)).
+      assert (Cu : current_rung_and_level (bump b) = Ok (sl, lv)) by (rewrite crl_bump; exact C).
+      destruct (bor_ok (bump b) r sl lv None NaN Cu eq_refl (Nat.lt_succ_diag_r _) eq_refl Ns (or_introl eq_refl) eq_refl)
+        as [b' [out R]].
+      { intros e Ne. eapply (bi_fut _ _ _ Bb); [|exact Ne]. simpl. lia. }
+      assert (Core3 := core_fail_slot _ _ _ _ _ _ _ _ _ _ _ (NS eq_refl) OK Core1 Nb C Ns R).
+      assert (Upd2 : upd bs2 i b' = upd bs1 i b').
+      { unfold bs2. clear. revert i. induction bs1 as [|x l IH]; intros [|i]; simpl; auto. rewrite IH. reflexivity. }
+      rewrite <- Upd2 in Core3.
+      destruct (mgr_on_result_inv rss md bs2 offs1 p i (bump b) r b' out P
+                  (match out with Some l => rem ++ l | None => rem end) n OK Offs2) as [m' [EM [IM [NM _]]]]; auto; try lia.
+      rewrite EM. eexists _, _, _, _, _. split; [reflexivity|]. split; [exact IM|].
+      split; [reflexivity|]. split; [exact Pi|]. split; [exact CasesOut|]. split; [exact Fin|].
+      split; [|reflexivity]. intros _ _. cbn [s_pending s_ntrials s_mgr]. repeat (split; [reflexivity|]).
+      exists b'. cbn [rung_index slot_index].
+      destruct (bor_inv _ _ _ _ _ _ Cu R) as [_ [_ [_ [_ [v' [MV' BC]]]]]].
+      simpl in MV'. inversion MV'; subst v'. cbv zeta in BC. simpl in BC.
+      destruct (crl_inv _ _ _ C) as [Nth _].
+      assert (Lc : (current_rung b < length (rungs b))%nat) by (eapply nth_error_lt; eauto).
+      exists (upd sl (first_free_pos b) (None, Some NaN)), lv. split; [exact NM|].
+      split; [|apply nth_error_upd_eq; eapply nth_error_lt; eauto].
+      destruct BC as [[_ [-> _]]|[[_ [_ [-> _]]]|[_ [nl [ms [vals [top [rem0 [_ [_ [_ [-> _]]]]]]]]]]]];
+        cbn [rungs]; try (rewrite nth_error_upd_neq by lia); apply nth_error_upd_eq; exact Lc.
+Qed.
+
+(* level_to_prev_level finds its key *)
+Lemma prev_level_in_some : forall rs prev lv k n0, nth_error rs k = Some (n0, lv) ->
+  exists q, prev_level_in rs prev lv = Some q.
+Proof.
+  induction rs as [|[n1 l1] rs IH]; intros prev lv k n0 H; [destruct k; discriminate|]. simpl.
+  destruct (Z.eqb l1 lv) eqn:E; [eauto|]. destruct k as [|k]; simpl in H.
+  - inversion H; subst. rewrite Z.eqb_refl in E. discriminate.
+  - eapply IH; eauto.
+Qed.
+
+Lemma prev_level_ok : forall rss md st bid lv k n0, Inv rss md st ->
+  (bid < length (m_brackets (s_mgr st)))%nat ->
+  nth_error (nth (bid mod length rss) rss []) k = Some (n0, lv) ->
+  exists q, level_to_prev_level (s_mgr st) bid lv = Ok q.
+Proof.
+  intros rss md st bid lv k n0 I Hb Hk. unfold level_to_prev_level.
+  rewrite (iv_off _ _ _ I), (iv_rs _ _ _ I).
+  rewrite nth_error_map. rewrite (nth_error_nth' (seq 0 _) 0%nat) by (rewrite seq_length; exact Hb).
+  rewrite seq_nth by exact Hb. simpl.
+  destruct (prev_level_in_some _ 0%Z _ _ _ Hk) as [q E]. rewrite E. eauto.
+Qed.
+
+(* ---- a pending job is answered -------------------------------------------- *)
+Lemma answer_inv : forall rss md st t bid s v, rss_ok rss -> Inv rss md st ->
+  lookup t (s_pending st) = Some (bid, s) ->
+  exists st', shell_on_result st bid (mkSIR (rung_index s) (level s) (slot_index s) (trial_id s) (Some v)) = Ok st' /\
+    Inv rss md (mkS (s_mgr st') (remove_key t (s_pending st')) (s_removable st') (s_ntrials st')) /\
+    (exists b' sl' lv', nth_error (m_brackets (s_mgr st')) bid = Some b' /\
+        nth_error (rungs b') (rung_index s) = Some (Filled sl' lv') /\
+        nth_error sl' (slot_index s) = Some (Some t, Some v)) /\
+    (exists k n0, nth_error (nth (bid mod length rss) rss []) k = Some (n0, level s)) /\
+    trial_id s = Some t.
+Proof.
+  intros rss md [[rs md0 bs offs p] P rem n] t bid s v OK I LK.
+  destruct I as [I1 I2 I3 I4 I5 I6 I7].
+  cbn [s_mgr s_pending s_ntrials s_removable m_rs m_mode m_brackets m_offsets m_primary] in *.
+  subst rs md0. assert (OK' := OK). destruct OK' as [NE CKs].
+  apply lookup_In in LK.
+  destruct (ic_p _ _ _ _ _ I7 _ _ _ LK) as [[b [sl [lv [t0 [Nb [C [E1 [E2 [E3 [E4 [E5 K]]]]]]]]]]] T M].
+  destruct (crl_inv _ _ _ C) as [Nth NC].
+  assert (Lb : (bid < length bs)%nat) by (eapply nth_error_lt; eauto).
+  assert (Pb : (p <= bid)%nat).
+  { destruct (Nat.le_gt_cases p bid) as [X|X]; [exact X|]. rewrite (I5 _ _ Nb X) in NC. discriminate. }
+  assert (Bb := ic_b _ _ _ _ _ I7 _ _ Nb).
+  set (r := mkSIR (rung_index s) (level s) (slot_index s) (trial_id s) (Some v)).
+  destruct (bor_ok b r sl lv t0 v C E1 E2 E3 E4) as [b' [out R]].
+  { unfold r. cbn [trial_id]. rewrite T. exact E5. } { reflexivity. }
+  { intros e Ne. eapply (bi_fut _ _ _ Bb); [|exact Ne]. lia. }
+  assert (Core := core_answer _ _ _ _ _ _ _ _ _ _ _ _ OK I7 LK Nb R).
+  assert (Slot : exists sl' lv', nth_error (rungs b') (rung_index s) = Some (Filled sl' lv') /\
+                                 nth_error sl' (slot_index s) = Some (Some t, Some v)).
+  { destruct (bor_inv _ _ _ _ _ _ C R) as [_ [_ [_ [_ [v' [MV' Cases]]]]]].
+    simpl in MV'. inversion MV'; subst v'. cbv zeta in Cases. simpl trial_id in Cases. rewrite T in Cases.
+    simpl slot_index in Cases. rewrite E1.
+    assert (Lc : (current_rung b < length (rungs b))%nat) by (eapply nth_error_lt; eauto).
+    exists (upd sl (slot_index s) (Some t, Some v)), lv.
+    split; [|apply nth_error_upd_eq; eapply nth_error_lt; eauto].
+    destruct Cases as [[_ [-> _]]|[[_ [_ [-> _]]]|[_ [nl [ms [vals [top [rem0 [_ [_ [_ [-> _]]]]]]]]]]]];
+      cbn [rungs]; try (rewrite nth_error_upd_neq by lia); apply nth_error_upd_eq; exact Lc. }
+  destruct Slot as [sl' [lv' [S1 S2]]].
+  destruct (mgr_on_result_inv rss md bs offs p bid b r b' out (remove_key t P)
+              (match out with Some l => rem ++ l | None => rem end) n OK I3 I4 I5 I6 Pb Nb R Core)
+    as [m' [EM [IM [NM _]]]].
+  unfold shell_on_result. cbn [s_mgr s_pending s_ntrials s_removable]. fold r. rewrite EM.
+  eexists. split; [reflexivity|]. cbn [s_mgr s_pending s_removable s_ntrials]. split; [exact IM|].
+  split; [exists b', sl', lv'; auto|]. split; [|exact T].
+  exists (current_rung b), (length sl). rewrite <- (bi_sys _ _ _ Bb), nth_error_map, Nth. simpl. rewrite E3. reflexivity.
+Qed.
+
+(* which events respect [strict] *)
+Definition op_ok (o : op) : Prop := strict = true -> o <> OSuggest false.
+
+(* ---- every event keeps the invariant and is accepted ----------------------- *)
+Lemma step_inv : forall rss md st o, rss_ok rss -> Inv rss md st -> op_ok o ->
+  exists st', step st o = Ok st' /\ Inv rss md st'.
+Proof.
+  intros rss md st o OK I OP. destruct o as [cfg_ok|t below v|t|]; simpl.
+  - destruct (suggest_inv _ _ _ cfg_ok OK I) as [st' [sg [bid [s [m' [E [I' _]]]]]]].
+    { intros ->. destruct (Bool.bool_dec strict true) as [ES|ES]; [exfalso; exact (OP ES eq_refl)|apply not_true_is_false; exact ES]. }
+    rewrite E. eauto.
+  - unfold on_trial_result. destruct (lookup t (s_pending st)) as [[bid s]|] eqn:LK; [|eauto].
+    assert (LK' := lookup_In _ _ _ LK).
+    assert (Core := iv_core _ _ _ I).
+    destruct (ic_p _ _ _ _ _ Core _ _ _ LK') as [[b [sl [lv [t0 [Nb [C [E1 [E2 [E3 _]]]]]]]]] T _].
+    rewrite T. replace (tid_eqb (Some t) (Some t)) with true by (symmetry; apply tid_eqb_eq; reflexivity).
+    cbn [negb]. destruct below as [|k].
+    + replace (level s - Z.of_nat 0)%Z with (level s) by lia.
+      rewrite Z.leb_refl, Z.eqb_refl. cbn [negb].
+      destruct (answer_inv _ _ _ _ _ _ v OK I LK) as [st' [E [I' [[b' [sl' [lv' [Nb' _]]]] [[k [n0 Hk]] _]]]]].
+      rewrite T in E. rewrite E.
+      destruct (prev_level_ok _ _ _ bid (level s) k n0 I') as [q Eq]; [eapply nth_error_lt; exact Nb'|exact Hk|].
+      cbn [s_mgr] in Eq |- *. rewrite Eq. eauto.
+    + replace (Z.leb (level s) (level s - Z.of_nat (S k))) with false by (symmetry; apply Z.leb_gt; lia).
+      destruct (crl_inv _ _ _ C) as [Nth _].
+      assert (Bb := ic_b _ _ _ _ _ Core _ _ Nb).
+      destruct (prev_level_ok _ _ _ bid (level s) (current_rung b) (length sl) I) as [q Eq];
+        [eapply nth_error_lt; exact Nb| |].
+      { rewrite <- (bi_sys _ _ _ Bb), nth_error_map, Nth. simpl. rewrite E3. reflexivity. }
+      rewrite Eq. eauto.
+  - unfold on_trial_error, report_as_failed. destruct (lookup t (s_pending st)) as [[bid s]|] eqn:LK; [|eauto].
+    destruct (answer_inv _ _ _ _ _ _ NaN OK I LK) as [st' [E [I' _]]]. rewrite E. eauto.
+  - eexists. split; [reflexivity|]. destruct I as [I1 I2 I3 I4 I5 I6 I7]. constructor; auto.
+Qed.
+
+Lemma init_inv : forall rss md, check_bracket_rungs rss = true ->
+  exists st, shell_init rss md = Ok st /\ Inv rss md st.
+Proof.
+  intros rss md CK. assert (OK := check_bracket_rungs_ok _ CK). destruct OK as [NE CKs].
+  unfold shell_init, mgr_init. rewrite CK.
+  destruct (create_ok rss md [] [] 0 eq_refl) as [CE CO]. rewrite CE. cbn [length] in *.
+  eexists. split; [reflexivity|].
+  set (sys := nth (0 mod length rss) rss []) in *.
+  assert (CKsys : check_rungs sys = true) by (apply CKs, mod_lt_len, NE).
+  assert (Core0 : InvCore rss md [] [] 0).
+  { constructor; try (intros; match goal with H : nth_error [] ?j = Some _ |- _ => destruct j; discriminate end);
+      try (intros; contradiction). constructor. }
+  assert (Core1 := core_new_bracket _ _ _ _ _ (conj NE CKs) Core0). cbn [length app] in Core1.
+  unfold set_primary. cbn [m_rs m_mode m_brackets m_offsets m_primary app].
+  apply mkInv'; auto.
+  - intros j b H Hj. lia.
+  - intros b H. simpl in H. inversion H. apply complete_new_bracket. exact CKsys.
+Qed.
+
+Lemma run_inv : forall rss md ops st, rss_ok rss -> Inv rss md st -> Forall op_ok ops ->
+  exists st', run st ops = Ok st' /\ Inv rss md st'.
+Proof.
+  intros rss md. induction ops as [|o ops IH]; intros st OK I F; simpl; [eauto|].
+  inversion F; subst.
+  destruct (step_inv _ _ _ o OK I) as [st1 [E I1]]; [assumption|]. rewrite E. apply IH; assumption.
+Qed.
+
+Theorem run_from_inv : forall rss md ops, check_bracket_rungs rss = true -> Forall op_ok ops ->
+  exists st, run_from rss md ops = Ok st /\ Inv rss md st.
+Proof.
+  intros rss md ops CK F. unfold run_from. destruct (init_inv rss md CK) as [st0 [E I]]. rewrite E.
+  apply run_inv; [apply check_bracket_rungs_ok; exact CK|exact I|exact F].
 Qed.
 
 End Strict.
